@@ -145,6 +145,9 @@ def run(ctx, rep):
     rep.ob("R2", any(it.kind == "branch" and it.events("recurse") for it in its), None, None, loc="selfies/decoder.py",
            construct="decoder branch rule present", how="model extracted (formula checked by C02/T2)", key="decoder-branch")
 
+    # encoder-side index code (shared with C16/I5): the symbols written for Q denote Q in the decoder's code
+    from rules.C16 import check_encoder_side
+    check_encoder_side(ctx, rep, "R1")
     # ---- R3 bond spelling inverse
     b2s = ctx.fn("selfies.utils.smiles_utils.bond_to_smiles")
     s2b = ctx.fn("selfies.utils.smiles_utils.smiles_to_bond")
